@@ -76,16 +76,11 @@ def run(ctx):
                          [("verify_proof_of_knowledge(ell, pkg.commitment, pkg.proof)?", pok)], require_fail_err=False)
         # the share for ell is produced only after ell's proof verified (same iteration)
         if lp is not None:
-            it = lp["iter_term"]
-            item = lambda t: t[0] == "some" and is_call(t[1], name="next") and t[1][2][0] == it
-            ins = {bb for (bb, t, ci) in p2.calls() if ci and ci.get("name") == "insert" and bb in lp["body"]}
-            m = pok(item)
-            edges = {e for (e, fa) in v.facts if m(fa) == "pass"}
-            good = bool(ins) and not sep(p2, edges, ins)
-            for bb in ins:
-                a = v.call_args(bb)
-                good = good and tfield(item, 0)(a[1])
-                sh = a[2]
+            item = lp["item"]
+            ents = produced_entries(lp)
+            good = bool(ents) and blocks_after_check(lp, [b for (b, _k, _v) in ents])
+            for (_b, key_, sh) in ents:
+                good = good and tfield(item, 0)(key_)
                 good = good and mentions(sh, lambda s: is_call(s, name="evaluate_polynomial") and tfield(item, 0)(strip_newtype_fields(s[2][0])))
             ctx.check(good, "LOOPDOM", p2.key, "G21:share-for-sender-after-its-proof",
                       "a round-two share is produced (or filed under another identifier) without the same sender's "
